@@ -201,8 +201,9 @@ pub fn install_panic_hook() {
             "<non-string panic>".to_string()
         };
         let loc = info.location().map(|l| format!("{}:{}", l.file(), l.line())).unwrap_or_default();
+        let msg = crate::ev::truncate(&msg, 400);
         LAST_PANIC.with(|p| *p.borrow_mut() = format!("{msg} @ {loc}"));
-        if std::env::var_os("VERIF_SHOW_PANICS").is_some() {
+        if std::env::var_os("VERIF_SHOW_PANICS").is_some() || std::thread::current().name() == Some("main") {
             eprintln!("panic: {msg} @ {loc}");
         }
     }));
